@@ -19,6 +19,9 @@ pub fn run(ctx: &Ctx) -> Report {
         Plan { fam: "S2", styles: styles.clone(), debug: vec![true], stride: ctx.pick(5, 1) },
         // string literals over {a, blank, TAB, LF, CR, NUL, quote, backslash, ;, e-acute} followed by another statement: sizes in words vs characters vs bytes
         Plan { fam: "STR", styles: vec![(0, DEFAULT_SECONDARY), (5 * 324, 1 + 20)], debug: vec![true], stride: ctx.pick(3, 1) },
+        // scale family under the gap styles: 255 / 256 / 257 / 300 / 1000 comment lines before statements, 16 before every statement (> 65536 lines in all)
+        Plan { fam: "BIG", styles: vec![(0, DEFAULT_SECONDARY), (0, 1 + 160), (0, 1 + 160 * 4), (7 * 324, 1 + 20 + 160 * 6)], debug: vec![true], stride: 1 },
+        Plan { fam: "BASE", styles: (1..7u64).map(|g| (0u64, 1 + 160 * g)).collect(), debug: vec![true], stride: 1 },
         Plan { fam: "F1", styles: vec![(0, DEFAULT_SECONDARY), (11 * 324, 1 + 20)], debug: vec![true], stride: 1 },
     ];
     run_plans(ctx, &mut rep, "C24", &plans, &|i| i.accepted && i.image_words > 0);
